@@ -72,7 +72,7 @@ def runtime_contract(qualname, args):
             res = list(res)
         if K.returns == "CellSetGen":
             res = set(res)
-        if K.returns == "IntSetGen":
+        if K.returns in ("IntSetGen", "IntSet"):
             res = {getattr(v, "value", v) for v in res}  # Enum members by their integer value
     except Exception as exc:  # noqa: BLE001
         if K.raises is not None and K.raises(c, *args):
